@@ -6,7 +6,7 @@ cd "$(dirname "$0")"
 export GOFLAGS=-mod=mod GOPROXY=off GOSUMDB=off GOTOOLCHAIN=local
 GO=go1.26
 command -v $GO >/dev/null 2>&1 || GO=go
-mkdir -p .scratch evidence replays
+mkdir -p .scratch evidence replays coq/gen harness/bin
 (cd tools/gen && $GO build -o gen .)
 ./tools/gen/gen -repo /repo -targets tools/gen/targets.json -out coq/gen/Extracted.v -fp coq/gen/fingerprints.json
 (cd coq && coq_makefile -f _CoqProject -o Makefile >/dev/null && timeout 3000 make -j16 >/dev/null)
